@@ -14,6 +14,7 @@ import (
 	"net/http"
 	"net/url"
 	"os"
+	"path"
 	"regexp"
 	"runtime/debug"
 	"sort"
@@ -76,12 +77,16 @@ type caseT struct {
 	Set       string `json:"set"`
 	Op        string `json:"op"` // Invoke | NewStream
 	Name      string `json:"name"`
+	// cross-mount cases: the client is configured with this base path, which
+	// denotes another mount than the server's Base
+	ClientBase string `json:"client_base,omitempty"`
 }
 
 // ---- the real thing under test ---------------------------------------------
 
 type config struct {
 	cc       grpc.ClientConnInterface
+	rt       http.RoundTripper // HTTP carriers: straight into the server's handler
 	counts   map[string]*int64
 	keys     []string
 	mu       sync.Mutex
@@ -180,11 +185,13 @@ func build(transport, base, set string) (cfg *config, err error) {
 	default:
 		return nil, fmt.Errorf("unknown transport %q", transport)
 	}
-	cfg.cc = &httpgrpc.Channel{
-		Transport: common.HandlerRT(recoverH{h: h, cfg: cfg}),
-		BaseURL:   &url.URL{Scheme: "http", Host: "example.test", Path: base},
-	}
+	cfg.rt = common.HandlerRT(recoverH{h: h, cfg: cfg})
+	cfg.cc = cfg.client(base)
 	return cfg, nil
+}
+
+func (cfg *config) client(base string) grpc.ClientConnInterface {
+	return &httpgrpc.Channel{Transport: cfg.rt, BaseURL: &url.URL{Scheme: "http", Host: "example.test", Path: base}}
 }
 
 type obsT struct {
@@ -209,6 +216,10 @@ func run(cfg *config, c caseT) (o obsT) {
 	cfg.mu.Unlock()
 	ctx, cancel := context.WithCancel(context.Background())
 	defer cancel()
+	cc := cfg.cc
+	if c.ClientBase != "" {
+		cc = cfg.client(c.ClientBase)
+	}
 	func() {
 		defer func() {
 			if p := recover(); p != nil {
@@ -217,13 +228,13 @@ func run(cfg *config, c caseT) (o obsT) {
 		}()
 		if c.Op == "Invoke" {
 			var out wrapperspb.StringValue
-			o.err = cfg.cc.Invoke(ctx, c.Name, wrapperspb.String("req"), &out)
+			o.err = cc.Invoke(ctx, c.Name, wrapperspb.String("req"), &out)
 			if o.err == nil {
 				o.Reply = out.Value
 			}
 			return
 		}
-		cs, err := cfg.cc.NewStream(ctx, &grpc.StreamDesc{StreamName: "x", ClientStreams: true, ServerStreams: true}, c.Name)
+		cs, err := cc.NewStream(ctx, &grpc.StreamDesc{StreamName: "x", ClientStreams: true, ServerStreams: true}, c.Name)
 		if err != nil {
 			o.err = err
 			return
@@ -309,6 +320,11 @@ func classify(c caseT) (class, must, may string, code *codes.Code) {
 	unknown := codes.NotFound
 	if c.Transport == "inproc" {
 		unknown = codes.Unimplemented
+	}
+	if c.ClientBase != "" {
+		// the request goes to clean(ClientBase + name), the handlers live under
+		// clean(Base + service/method): another mount, nothing may be reached
+		return "cross-mount", "", "", &unknown
 	}
 	if wellFormed.MatchString(c.Name) {
 		p := strings.Split(c.Name, "/")
@@ -404,6 +420,9 @@ func fingerprint(c caseT, clause string, o obsT) string {
 	if c.Transport != "inproc" {
 		where += "|base=" + c.Base
 	}
+	if c.ClientBase != "" {
+		where += "|client-base=" + c.ClientBase
+	}
 	if clause == "panic" {
 		// the registered set and the spelling of the segments do not matter for a
 		// parse panic; the slash shape of the name and the panic text do.
@@ -464,13 +483,19 @@ func names(maxSegs int) []string {
 
 type transportT struct{ kind, base string }
 
-func transports(tier string) []transportT {
-	bases := []string{"/", "/foo", "/foo/", "/a/b", "/a/b/", "/é/", "/a+b~c.d/"}
+func basePaths(tier string) []string {
+	bases := []string{"/", "/foo", "/foo/", "/a/b", "/a/b/", "/é/", "/a+b~c.d/",
+		// a literal '%' (the client escapes it, the server sees it decoded)
+		"/100%", "/c%d/x", "/x%s/", "/a%2Fb/", "/v%%1", "/v%1"}
 	if tier == "thorough" {
-		bases = append(bases, "/a%20b/", "/a?b/", "/a#b/", "/pkg.A/", "/pkg.A/M", "//x//", "/a;b=c/", "/A&B/")
+		bases = append(bases, "/100%/rpc", "/%", "/%v/", "/a%20b/", "/a?b/", "/a#b/", "/pkg.A/", "/pkg.A/M", "//x//", "/a;b=c/", "/A&B/")
 	}
+	return bases
+}
+
+func transports(tier string) []transportT {
 	out := []transportT{{"inproc", ""}}
-	for _, b := range bases {
+	for _, b := range basePaths(tier) {
 		out = append(out, transportT{"http-server", b}, transportT{"http-mux", b})
 	}
 	return out
@@ -603,6 +628,39 @@ func main() {
 					}
 				}
 			}
+			// cross-mount: same server, the client configured with every base path
+			// of the alphabet that denotes another mount; the registered full names
+			if j.tr.kind != "inproc" && j.set == "AB" {
+				for _, cb := range basePaths(rep.Tier) {
+					if path.Clean(cb) == path.Clean(j.tr.base) {
+						continue
+					}
+					for _, op := range []string{"Invoke", "NewStream"} {
+						for _, name := range []string{"/pkg.A/M", "/pkg.A/S", "/pkg.B/M", "/pkg.B/M2"} {
+							c := caseT{Transport: j.tr.kind, Base: j.tr.base, Set: j.set, Op: op, Name: name, ClientBase: cb}
+							inflight.Store(ji, c)
+							o := run(cfg, c)
+							atomic.AddInt64(&progress, 1)
+							j.n++
+							j.nt++
+							outcome := "clean-failure"
+							if len(o.Ran) > 0 {
+								outcome = "handler-ran"
+							}
+							if o.Panic != "" {
+								outcome = "panic"
+							}
+							j.cls["cross-mount/"+outcome]++
+							if clause, detail := check(c, o); clause != "" {
+								j.res = append(j.res, result{c, o, clause, detail})
+							}
+							if k := op + "/" + j.tr.kind + "/cross-mount/" + outcome; j.smp[k] == nil {
+								j.smp[k] = map[string]interface{}{"case": c, "class": "cross-mount", "observed": o}
+							}
+						}
+					}
+				}
+			}
 			inflight.Delete(ji)
 		}(ji, j)
 	}
@@ -628,7 +686,7 @@ func main() {
 			}
 		}
 		for _, r := range j.res {
-			rep.Violation(fingerprint(r.c, r.clause, r.o), fmt.Sprintf("%s %s %q on %s base=%q set=%s: %s: %s", r.c.Op, "name", r.c.Name, r.c.Transport, r.c.Base, r.c.Set, r.clause, r.detail), r.c)
+			rep.Violation(fingerprint(r.c, r.clause, r.o), fmt.Sprintf("%s %s %q on %s base=%q set=%s: %s: %s", r.c.Op, "name", r.c.Name, r.c.Transport, r.c.Base+map[bool]string{true: "\" client-base=\"" + r.c.ClientBase}[r.c.ClientBase != ""], r.c.Set, r.clause, r.detail), r.c)
 		}
 	}
 	var smpKeys []string
@@ -649,7 +707,7 @@ func main() {
 		"evaluations":         evals,
 		"distinct_nontrivial": nontrivial,
 		"rule": "every string of 1.." + fmt.Sprint(strings.Count(nameList[len(nameList)-1], "/")+1) + " segments from {\"\",pkg.A,pkg.B,A,pkg,M,S,M2,x} joined by '/', plus every proper prefix and suffix of the four registered full names, " +
-			"x {Invoke, NewStream} x registered sets {none,{pkg.A(M unary,S stream)},{pkg.A,pkg.B(M,M2 unary)}} x {in-process, httpgrpc.NewServer(WithBasePath), http.ServeMux+HandleServices} x base paths, same base path on Channel.BaseURL and server. " +
+			"x {Invoke, NewStream} x registered sets {none,{pkg.A(M unary,S stream)},{pkg.A,pkg.B(M,M2 unary)}} x {in-process, httpgrpc.NewServer(WithBasePath), http.ServeMux+HandleServices} x base paths (incl. ones with a literal '%'), same base path on Channel.BaseURL and server; plus cross-mount cases: for set {pkg.A,pkg.B} and every ordered pair of base paths denoting different mounts, the four registered full names x {Invoke, NewStream} from a client on the other base path must reach nothing (NotFound). " +
 			"A case is non-trivial when the lookup ran against a non-empty registry (set != none), i.e. the name was actually matched against registered services/methods; each case is distinct by (transport, base, set, op, name). by_class_and_outcome gives the measured split.",
 		"by_class_and_outcome": classes,
 		"names":                len(nameList),
